@@ -51,7 +51,12 @@ def gen_skeletons():
     core.write_if_changed(core.GEN / "GenSkeletons.v", skeletons.translate(core.PKG))
 
 
-ALL = [gen_share, gen_tables, gen_stats, gen_pragma, gen_ops, gen_hash, gen_sites, gen_skeletons]
+def gen_globals():
+    from pyt2coq import globals_
+    core.write_if_changed(core.GEN / "GenGlobals.v", globals_.translate(core.PKG))
+
+
+ALL = [gen_share, gen_tables, gen_stats, gen_pragma, gen_ops, gen_hash, gen_sites, gen_skeletons, gen_globals]
 
 
 def gen_all(strict=True):
